@@ -1,7 +1,7 @@
 from typedpy.structures import Field, Structure, TypedField, ClassReference, StructMeta
 from typedpy.commons import python_ver_atleast_39, wrap_val
 from .collections_impl import ContainNestedFieldMixin, _CollectionMeta
-from .fields import verify_type_and_uniqueness
+from .fields import _named_copy, verify_type_and_uniqueness
 from .function_call import Callable
 
 
@@ -111,9 +111,10 @@ class Tuple(ContainNestedFieldMixin, TypedField, metaclass=_CollectionMeta):
         res = []
         items = self.items if len(self.items) > 1 else self.items * len(value)
         for ind, item in enumerate(items):
-            setattr(item, "_name", self._name + f"_{str(ind)}")
-            item.__set__(temp_st, value[ind])
-            res.append(getattr(temp_st, getattr(item, "_name")))
+            element = _named_copy(item, self._name + f"_{str(ind)}")
+            setattr(item, "_name", element._name)
+            element.__set__(temp_st, value[ind])
+            res.append(getattr(temp_st, element._name))
             res += value[len(items) :]
         value = tuple(res)
         verify_type_and_uniqueness(tuple, value, self._name, self.uniqueItems)
